@@ -1,0 +1,33 @@
+//go:build verif
+
+// Contracts for the deductive verifier in /verif (comment-only; compiled only with -tags verif).
+
+package impl
+
+// C19 "only STHs that carry a valid signature of the configured log": the witness looks a log up by
+// its ID and verifies with the verifier stored under that ID, so the map built from the configuration
+// must file each log's verifier — built from exactly that log's public key — under the ID computed
+// from that same key: base64 of the SHA-256 of the key's DER bytes.
+//@ func LogIDFromPubKey
+//@ props C19
+//@ arith int
+//@ site DecodeString#1 as d
+//@ site sha256.Sum256#1 as h
+//@ site EncodeToString#1 as e
+//@ ensures [an-undecodable-key-has-no-id] d.res1 != nil ==> result1 != nil && !e.called
+//@ ensures [the-id-is-the-encoded-hash] d.res1 == nil ==> result1 == nil && e.called && result0 == e.res
+//@ at d assert [decodes-the-given-key] d.s == pk
+//@ at h assert [hashes-the-decoded-der-bytes] h.data == d.res0
+//@ at e assert [encodes-all-32-bytes-of-that-hash] len(e.src) == 32 && (forall j int :: 0 <= j && j < 32 ==> e.src[j] == h.res[j])
+
+//@ func buildLogMap
+//@ props C19
+//@ arith int
+//@ site PublicKeyFromB64#1 as pkf
+//@ site NewSignatureVerifier#1 as nv
+//@ site LogIDFromPubKey#1 as id
+//@ at pkf assert [key-of-this-log] pkf.b64PubKey == log.PubKey
+//@ at nv assert [verifier-for-that-key] nv.pk == pkf.res0
+//@ at id assert [id-of-the-same-key] id.pk == log.PubKey
+//@ loop 1 step-assert [the-verifier-is-filed-under-the-id-of-its-own-key] nv.res1 == nil && id.res1 == nil && has(logMap, id.res0) && logMap[id.res0].PubKey == after(nv, nv.res0.PubKey)
+//@ ensures [a-log-whose-key-or-id-cannot-be-built-refuses-the-whole-configuration] (pkf.called && pkf.res1 != nil) || (nv.called && nv.res1 != nil) || (id.called && id.res1 != nil) ==> result1 != nil && result0 == nil
